@@ -170,6 +170,19 @@ def attr_sites(cls: ast.AST, attr: str) -> List[str]:
     return sorted(res)
 
 
+def close_sends_eof(flush: ast.AST) -> bool:
+    """in `_flush_send_buf`: `elif self._send_state == 'close_pending':` first tests `self._send_eof_pending`, and under
+    it sends MSG_CHANNEL_EOF, then calls `self._close_send()`"""
+    for n in ast.walk(flush):
+        if isinstance(n, ast.If) and ast.unparse(n.test) == "self._send_state == 'close_pending'":
+            body = n.body
+            if len(body) == 2 and isinstance(body[0], ast.If) and ast.unparse(body[0].test) == 'self._send_eof_pending' \
+                    and any(ast.unparse(x) == 'self.send_packet(MSG_CHANNEL_EOF)' for x in body[0].body) \
+                    and ast.unparse(body[1]) == 'self._close_send()':
+                return True
+    return False
+
+
 def decrement_site(cls: ast.AST) -> List[str]:
     """names of the methods of SSHChannel that decrement `_recv_window`"""
     res = []
@@ -301,6 +314,10 @@ def generate(prop: str) -> Dict[str, Any]:
     out += item('wadj', wadj)
     out += '/-- where `_recv_buf_len` (bytes buffered while reading is paused) is maintained: method and operation -/\n'
     out += 'def recvBufLenSites : List String := ' + T.lean_list([T.lean_str(x) for x in attr_sites(cls, '_recv_buf_len')]) + '\n\n'
+    out += '/-- where `_send_eof_pending` (write_eof() called before close(), EOF still owed) is written -/\n'
+    out += 'def sendEofPendingSites : List String := ' + T.lean_list([T.lean_str(x) for x in attr_sites(cls, '_send_eof_pending')]) + '\n\n'
+    out += '/-- does the close_pending branch of `_flush_send_buf` send the pending EOF before `_close_send()`? -/\n'
+    out += f'def closeSendsPendingEof : Bool := {T.lean_bool(close_sends_eof(flush))}\n\n'
     out += '/-- where `_recv_eof_pending` (EOF still pending when CLOSE arrived) is written -/\n'
     out += 'def recvEofPendingSites : List String := ' + T.lean_list([T.lean_str(x) for x in attr_sites(cls, '_recv_eof_pending')]) + '\n\n'
     sites = decrement_site(cls)
